@@ -112,7 +112,8 @@ SURROUNDINGS = [
 
 
 def run_state(args):
-    h, uid, stdin, tier, w = args
+    h, uid, stdin, tier, w = args[:5]
+    compiled_in = len(args) > 5 and args[5]
     tty = stdin == 'pty'
     E, ch = chains(tier, uid, tty)
     os.makedirs(w, exist_ok=True)
@@ -121,6 +122,14 @@ def run_state(args):
         lines.append('errno 34')       # the caller's ambient errno (ERANGE) must not influence any filter decision
     if uid != 0:
         lines.append('setresuid %d 0 0' % uid)   # real uid differs from effective: filters must use the REAL uid
+    if compiled_in:
+        # build without configuration file: message format, chain and output are the compiled-in ones (variables of native/seam.c)
+        ch = [c for c in ch if len(c[0]) <= 2 or c[1].startswith('long')]
+        lines += ['defformat ' + H.hx(b'M'), 'defoutput ' + H.hx(b'file'), 'defoutarg ' + H.hx(b'log')]
+        for combo, st, text in ch:
+            lines += ['resetsinks', 'defchain ' + H.hx(text), 'call execve %s [h61] [] -1 13' % H.hx(b'/x')]
+        r = H.run_script(h, w, '\n'.join(lines), env_extra={'VERIF_HEXMAX': '64'}, timeout=900)
+        return r, E, ch, tty
     # the same chains inside other configuration surroundings: the decision and the silence of a drop must not depend on them
     short = [c for c in ch if c[1] == 'plain' and len(c[0]) <= 2]
     for sname, pre, post in SURROUNDINGS:
@@ -141,13 +150,17 @@ def run(ck):
     v = H.build_exec_harness('c07-ts-asan')
     states = [(uid, stdin) for uid in (0, 1000, 54321) for stdin in ('pty', 'pipe')]
     jobs = [(v['h_exec'], uid, stdin, ck.tier, os.path.join(ck.workdir, 's%d-%s' % (uid, stdin))) for uid, stdin in states]
+    # the compiled-in route (./configure --disable-config-file --with-filter-chain=...): every <= 2-element chain and the long single-drop chains
+    vci = H.build_exec_harness('c07ci-ts-asan', compiled_in=True)
+    jobs += [(vci['h_exec'], uid, stdin, ck.tier, os.path.join(ck.workdir, 'ci%d-%s' % (uid, stdin)), True) for uid, stdin in ((0, 'pty'), (1000, 'pipe'), (54321, 'pty'))]
     res = pmap(run_state, jobs)
     evals = 0
     outcomes = set()
     samples = []
-    for (h, uid, stdin, tier, w), (r, E, ch, tty) in zip(jobs, res):
+    for job, (r, E, ch, tty) in zip(jobs, res):
+        h, uid, stdin, tier, w = job[:5]
         calls = [l for l in r['lines'] if 'call' in l]
-        tag = 'uid=%d:stdin=%s' % (uid, stdin)
+        tag = 'uid=%d:stdin=%s' % (uid, stdin) + (':compiled_in' if len(job) > 5 else '')
         if not r['done']:
             c = ch[len(calls)] if len(calls) < len(ch) else None
             ck.violation('C07:abort:%s:chain=%s' % (tag, c[2][:80].decode() if c else '?'), {'state': tag, 'chain': c[2].decode() if c else None, 'rc': r['rc'], 'sanitizer': r['san'][:1], 'stderr': r['stderr'][-400:]})
